@@ -167,6 +167,15 @@ func checkC11(c *Case, s *Stats) error {
 	noteCurrentCase(c)
 	complete := c.Opt.complete()
 	_ = fresh // no call on any instance before the concurrent phase (cold start)
+	// independent builds running at the same time (under the race detector)
+	if len(c.Keys)%3 == 0 {
+		for _, e := range buildConcurrently(concurrentBuildCases(len(c.Keys))[:4]) {
+			if e != nil {
+				return e
+			}
+		}
+		s.class("concurrent_builds_phase")
+	}
 
 	// 1. all workers concurrently on ONE shared instance that no call has touched
 	// yet. This phase runs FIRST: state that is initialised lazily on first use
@@ -254,4 +263,75 @@ func checkC11(c *Case, s *Stats) error {
 	s.class(fmt.Sprintf("gomaxprocs=%d", c.Procs))
 	s.done(c, mixed >= 2 && ok && sh.Prefixes > 0, c.Opt.mode()+c.Load)
 	return nil
+}
+
+// concurrentBuildCases: 8 different key sets whose inner nodes carry steps of
+// different lengths; option levels and encoders vary.
+func concurrentBuildCases(round int) []*Case {
+	var out []*Case
+	for g := 0; g < 8; g++ {
+		r := sm64{uint64(round*131 + g*7 + 1)}
+		n := 1500 + r.intn(3000)
+		set := map[string]struct{}{}
+		for len(set) < n {
+			// group prefix (2 bytes) + shared run of g+1..g+6 bytes + 2 distinguishing bytes
+			p := []byte{byte(r.next()), byte(r.next())}
+			run := strings.Repeat(string([]byte{byte('a' + g)}), 1+g+r.intn(5))
+			for j := 0; j < 3; j++ {
+				set[string(p)+run+string([]byte{byte(r.next()), byte(j)})] = struct{}{}
+			}
+		}
+		keys := sortedSet(set)
+		c := &Case{Gen: "concurrent-build", Keys: hexes(keys), Enc: "I32", HasVals: true,
+			Opt: []OptSpec{{0, 0, 0, 0}, {1, 0, 2, 0}, {0, 2, 0, 0}, {0, 0, 0, 2}}[(g+round)%4]}
+		for i := range keys {
+			c.Vals = append(c.Vals, Hex(leBytes(uint64(i*3+g), 4)))
+		}
+		out = append(out, c)
+	}
+	return out
+}
+
+// buildConcurrently builds all cases at the same time and checks every trie
+// against its own model afterwards.
+func buildConcurrently(cases []*Case) []error {
+	errs := make([]error, len(cases))
+	tries := make([]*trie.SlimTrie, len(cases))
+	var wg sync.WaitGroup
+	start := make(chan struct{})
+	for i := range cases {
+		i := i
+		wg.Add(1)
+		go func() {
+			defer wg.Done()
+			<-start
+			errs[i] = guard("NewSlimTrie (one of several concurrent builds)", func() error {
+				st, e := cases[i].build()
+				if e != nil {
+					return viol("valid-rejected", "NewSlimTrie rejected valid input while other builds were running: %v", e)
+				}
+				tries[i] = st
+				return nil
+			})
+		}()
+	}
+	close(start)
+	wg.Wait()
+	for i, c := range cases {
+		if errs[i] != nil {
+			continue
+		}
+		m := newModel(c)
+		st := tries[i]
+		errs[i] = guard("lookup of own keys", func() error {
+			for j, k := range m.Keys {
+				v, f := st.Get(k)
+				if !f || !valEq(v, m.Want[j]) {
+					return viol("mis-indexed", "a trie built while other tries were being built: Get(%s) = (%v,%v), want (%v,true)", q(k), v, f, m.Want[j])
+				}
+			}
+			return nil
+		})
+	}
+	return errs
 }
